@@ -249,6 +249,11 @@ class InspectionVisitor(TreeVisitor[TreeSummary]):
 
     def visitUnaryOp(self, operator: str, operand: TreeSummary, node: Node) -> TreeSummary:
         # Docstring inherited from TreeVisitor.visitUnaryOp
+        if operator.upper() == "NOT":
+            # A negated comparison does not pin the data ID to the value it
+            # mentions.
+            operand.dataIdKey = None
+            operand.dataIdValue = None
         return operand
 
     def visitBinaryOp(self, operator: str, lhs: TreeSummary, rhs: TreeSummary, node: Node) -> TreeSummary:
